@@ -38,6 +38,7 @@ seed = int(sys.argv[1]) if len(sys.argv) > 1 else 0
 tier = sys.argv[2] if len(sys.argv) > 2 else "quick"
 shard, nshard = (int(x) for x in (sys.argv[3] if len(sys.argv) > 3 else "0/1").split("/"))
 tmp = tempfile.mkdtemp()
+__import__("atexit").register(__import__("shutil").rmtree, tmp, True)
 CONV = {k: list(v) for k, v in molden.CONVENTIONS.items()}
 
 
